@@ -1,46 +1,200 @@
-"""replay adapter for C39: drive a real LiveDispatcher with two streams and check numbering / num_events"""
+"""replay adapter for C39: drive a real LiveDispatcher subclass through a run (two streams, optionally a misbehaving
+environment) and evaluate the statement's clauses on the documents its first subscriber received:
+  * events of each stream are numbered 1..N in the order they were handed over,
+  * every event references a descriptor (of this run) handed over before it,
+  * exactly one RunStop, last, whose num_events is {stream: N} for the streams with events.
+The scenario is chosen by the obligation's info (same pre-state / environment as the contract's task):
+  steps        kb events in 'b', ka in 'a', then the step (new / known / re-described / other id_args), two more events, stop
+  fault        as steps, but on the step one document is rejected by the schema / makes the second subscriber raise / makes
+               the second subscriber feed another event back
+  stop         a transforming subclass that drops raw events (all of them when the counter-model has no events): the raw
+               RunStop carries the RAW run's num_events
+  passthrough  the base class' own event()
+"""
 from bluesky.callbacks.stream import LiveDispatcher
 from .common import get
 
+NUM = {"dtype": "number", "shape": [], "source": "dev"}
+STREAM_OF_KEY = {"x": "a", "y": "b"}
 
-class TwoStreams(LiveDispatcher):
+
+class Routed(LiveDispatcher):
+    """a transforming dispatcher: `plan[uid]` says what becomes of the raw event (None: dropped)"""
+
+    def __init__(self):
+        super().__init__()
+        self.plan = {}
+
     def event(self, doc, **kwargs):
-        self.process_event(doc, stream_name={"raw1": "a", "raw2": "b"}[doc["descriptor"]])
+        p = self.plan.get(doc["uid"])
+        if p is None:
+            return
+        new = dict(doc)          # like the contract's harness: the document still has the raw uid / seq_num / time / timestamps
+        new.update(p.get("extra", {}))
+        self.process_event(new, **p["kw"])
+
+
+def oracle(docs, stream_of):
+    """-> list of violated clauses over the documents one subscriber received"""
+    bad = []
+    starts = [d for n, d in docs if n == "start"]
+    stops = [d for n, d in docs if n == "stop"]
+    if len(starts) != 1 or not docs or docs[0][0] != "start":
+        return [f"not exactly one leading RunStart: {[n for n, d in docs]}"]
+    suid = starts[0]["uid"]
+    seen_desc = set()
+    per_stream = {}
+    for n, d in docs:
+        if n == "descriptor":
+            if d.get("run_start") != suid:
+                bad.append("descriptor of another run")
+            seen_desc.add(d["uid"])
+        elif n == "event":
+            s = stream_of(d)
+            per_stream.setdefault(s, []).append(d.get("seq_num"))
+            if d.get("descriptor") not in seen_desc:
+                bad.append(f"event {s}#{len(per_stream[s])} references a descriptor that was never handed over")
+    for s, v in per_stream.items():
+        if v != list(range(1, len(v) + 1)):
+            bad.append(f"stream {s} numbered {v}")
+    if len(stops) != 1 or docs[-1][0] != "stop":
+        bad.append(f"not exactly one closing RunStop: {[n for n, d in docs]}")
+    else:
+        want = {s: len(v) for s, v in per_stream.items()}
+        ne = stops[0].get("num_events")
+        same = isinstance(ne, dict) and all(ne.get(s, 0) == want.get(s, 0) for s in set(ne) | set(want))   # not listed: 0 events
+        if not same or stops[0].get("run_start") != suid:
+            bad.append(f"stop.num_events={stops[0].get('num_events')} but events handed over per stream={want}")
+    return bad
+
+
+class Second:
+    """the dispatcher's second subscriber (the first one, the collector, has already received the document)"""
+
+    def __init__(self, ld):
+        self.ld, self.mode, self.on = ld, None, None
+
+    def __call__(self, name, doc):
+        if self.mode and name == self.on:
+            mode, self.mode = self.mode, None
+            if mode == "subscriber":
+                raise RuntimeError("a subscriber failed")
+            if mode == "reenter":
+                self.ld.process_event({"uid": "fed-back", "data": {"x": 5.0}, "timestamps": {"x": 0.0}, "descriptor": "raw1",
+                                       "seq_num": 99, "time": 0.0, "filled": {}}, stream_name="a")
+
+
+def exit_status(model, name):
+    """the raw RunStop's exit status as in the counter-model (any of the three legal values)"""
+    v = get(model, name, "str", "success")
+    return v if v in ("success", "abort", "fail") else "success"
+
+
+def _raw_descriptors(ld):
+    ld.descriptor({"uid": "raw1", "data_keys": {"x": dict(NUM), "w": dict(NUM)}, "name": "primary",
+                   "run_start": "raw-start", "time": 0.0, "configuration": {}, "hints": {}, "object_keys": {}})
+    ld.descriptor({"uid": "raw2", "data_keys": {"y": dict(NUM)}, "name": "primary",
+                   "run_start": "raw-start", "time": 0.0, "configuration": {}, "hints": {}, "object_keys": {}})
 
 
 def live_dispatcher(model, info, art):
-    ka = max(get(model, "count_a", "int", 1), 0)
-    kb = max(get(model, "count_b", "int", 1), 0)
-    ka, kb = min(ka, 50), min(kb, 50)
-    ld = TwoStreams()
+    scenario = info.get("scenario", "steps")
+    known = info.get("known", True)
+    ka = min(max(get(model, "count_a", "int", 1), 0), 20)
+    kb = min(max(get(model, "count_b", "int", 1), 0), 20)
+    if scenario == "passthrough":
+        return passthrough()
+    ka = 0 if not known else max(ka, 1)
+    if "has_b" in info:
+        kb = max(kb, 1) if info["has_b"] else 0
+    ld = Routed()
     out = []
     ld.subscribe(lambda n, d: out.append((n, d)))
-    import time
-    ld.start({"uid": "raw-start", "time": time.time()})
-    ld.descriptor({"uid": "raw1", "data_keys": {"x": {"dtype": "number", "shape": [], "source": "dev"},
-                                                 "w": {"dtype": "number", "shape": [], "source": "dev"}}, "name": "primary",
-                   "run_start": "raw-start", "time": 0.0, "configuration": {}, "hints": {}, "object_keys": {}})
-    ld.descriptor({"uid": "raw2", "data_keys": {"y": {"dtype": "number", "shape": [], "source": "dev"}}, "name": "primary",
-                   "run_start": "raw-start", "time": 0.0, "configuration": {}, "hints": {}, "object_keys": {}})
-    seq = 0
-    order = ["b"] * kb + ["a"] * (ka + 1)
-    for j, s in enumerate(order):
-        seq += 1
-        key, raw = ("x", "raw1") if s == "a" else ("y", "raw2")
-        data = {key: 1.0}
-        if s == "a" and j < len(order) - 1:
-            data["w"] = 2.0          # the last event of stream a has other data keys: the stream is re-described
-        ld.event({"uid": f"e{seq}", "descriptor": raw, "data": data, "timestamps": dict.fromkeys(data, 0.0), "seq_num": seq,
-                  "time": 0.0, "filled": {}})
-    ld.stop({"uid": "stop", "run_start": "raw-start", "exit_status": "success", "time": 0.0, "reason": ""})
-    descs = {d["uid"]: d for n, d in out if n == "descriptor"}
-    per_stream = {}
+    second = Second(ld)
+    ld.subscribe(second)
+    ld.start({"uid": "raw-start", "time": 0.0})
+    _raw_descriptors(ld)
+    seq = [0]
+    raw_counts = {}
+    errors = []
+
+    def feed(stream, keys, plan):
+        seq[0] += 1
+        uid = f"e{seq[0]}"
+        raw = "raw1" if stream == "a" else "raw2"
+        raw_counts["primary"] = raw_counts.get("primary", 0) + 1
+        data = dict.fromkeys(keys, 1.0)
+        ld.plan[uid] = plan
+        try:
+            ld.event({"uid": uid, "descriptor": raw, "data": data, "timestamps": dict.fromkeys(keys, 0.0), "seq_num": seq[0] + 100,
+                      "time": 0.0, "filled": {}})
+        except Exception as e:        # what the RunEngine does with RE.ignore_callback_exceptions = True: log and go on
+            errors.append(f"{type(e).__name__}")
+
+    pre_kw = {"stream_name": "a"}
+    step_kw = {"stream_name": "a"}
+    pre_keys = ("x",)
+    if known == "other":
+        pre_keys = ("x", "w")
+    if known == "other-id":
+        pre_kw["id_args"] = ("cfg1",)
+        step_kw.update(id_args=("cfg2",), config={"det": {"data": {}, "timestamps": {}, "data_keys": {}}})
+    for _ in range(kb):
+        feed("b", ("y",), {"kw": {"stream_name": "b"}})
+    for _ in range(ka):
+        feed("a", pre_keys, {"kw": dict(pre_kw)})
+    what = f"{kb} events in stream b, {ka} in stream a"
+    if scenario == "stop":
+        for _ in range(3):
+            feed("a", ("x",), None)                     # raw events the transforming subclass does not re-emit
+        what += ", 3 raw events dropped"
+    else:
+        step = {"kw": dict(step_kw)}
+        if scenario == "fault":
+            kind, on = info["kind"], info["on"]
+            if kind == "validator" and on == "event":
+                step["extra"] = {"bogus": 1}              # additional properties are not allowed in an Event
+            elif kind == "validator":
+                step["kw"]["config"] = "not-a-mapping"    # EventDescriptor.configuration must be an object
+            else:
+                second.mode, second.on = kind, on
+            what += f", then an event on which {('the schema rejects the ' + on) if kind == 'validator' else ('the 2nd subscriber does: ' + kind + ' on the ' + on)}"
+        feed("a", ("x",), step)
+        second.mode = None
+        feed("a", ("x",), {"kw": dict(step_kw)})
+        feed("b", ("y",), {"kw": {"stream_name": "b"}})
+        what += ", then one event in a and one in b"
+    raw_ne = dict(raw_counts)
+    ld.stop({"uid": "stop", "run_start": "raw-start", "exit_status": exit_status(model, "exit_status"), "time": 0.0, "reason": "",
+             "num_events": dict(raw_ne)})
+    stream_of = lambda d: STREAM_OF_KEY[[k for k in d["data"] if k in STREAM_OF_KEY][0]]  # noqa: E731
+    n_first = len(out)
+    # the next run through the same dispatcher starts from zero (state reset clause)
+    ld.start({"uid": "raw-start-2", "time": 0.0})
+    _raw_descriptors(ld)
+    feed("a", ("x",), {"kw": {"stream_name": "a"}})
+    ld.stop({"uid": "stop2", "run_start": "raw-start-2", "exit_status": exit_status(model, "exit_status_2"), "time": 0.0, "reason": "",
+             "num_events": {"primary": 1}})
+    second_run, out = out[n_first:], out[:n_first]
+    bad = oracle(out, stream_of) + ["next run: " + b for b in oracle(second_run, stream_of)]
+    per = {}
     for n, d in out:
         if n == "event":
-            stream = "a" if "x" in d["data"] else "b"
-            per_stream.setdefault(stream, []).append(d["seq_num"])
-    stop = [d for n, d in out if n == "stop"][0]
-    numbering_ok = all(v == list(range(1, len(v) + 1)) for v in per_stream.values())
-    num_ok = stop["num_events"] == {k: len(v) for k, v in per_stream.items()}
-    detail = f"{kb} events in stream b then {ka + 1} in stream a: seq_nums per stream {list(per_stream.values())}, stop.num_events={stop['num_events']}"
-    return ("contradicted" if numbering_ok and num_ok else "confirmed"), detail
+            per.setdefault("a" if "x" in d["data"] else "b", []).append(d.get("seq_num"))
+    stop = [d for n, d in out if n == "stop"]
+    detail = (f"{what} (exceptions seen by the caller: {errors}): seq_nums per stream {per}, "
+              f"stop.num_events={stop[0].get('num_events') if stop else None}, raw num_events={raw_ne}; violated: {bad or 'nothing'}")
+    return ("confirmed" if bad else "contradicted"), detail
+
+
+def passthrough():
+    ld = LiveDispatcher()
+    out = []
+    ld.subscribe(lambda n, d: out.append((n, d)))
+    ld.start({"uid": "raw-start", "time": 0.0})
+    _raw_descriptors(ld)
+    for i in (1, 2):
+        ld.event({"uid": f"e{i}", "descriptor": "raw1", "data": {"x": 1.0}, "timestamps": {"x": 0.0}, "seq_num": i + 4, "time": 0.0, "filled": {}})
+    ld.stop({"uid": "stop", "run_start": "raw-start", "exit_status": "success", "time": 0.0, "reason": "", "num_events": {"primary": 2, "baseline": 2}})
+    bad = oracle(out, lambda d: "primary")
+    return ("confirmed" if bad else "contradicted"), f"two raw events through LiveDispatcher.event: {[(n, d.get('seq_num'), d.get('num_events')) for n, d in out]}; violated: {bad or 'nothing'}"
